@@ -24,7 +24,7 @@ FLOORS = {
     'quick': {'orders': 2000, 'exhaustive_order_workbooks': 10, 'path:rect': 200, 'path:unbounded': 100,
               'path:list': 20, 'path:tuple': 20, 'path:generator': 20, 'path:sheetless': 60,
               'path:repeat': 60, 'path:first_access_range': 40, 'element_compares': 15000,
-              'cfg:xlsx-with-stale-stored-results': 8, 'real_book_cases': 40, 'real_value_compares': 1500},
+              'cfg:xlsx-with-stale-stored-results': 8, 'real_book_cases': 20, 'real_value_compares': 800},
     'thorough': {'orders': 60000, 'exhaustive_order_workbooks': 400, 'path:unbounded': 4000,
                  'element_compares': 400000},
 }
